@@ -1,7 +1,7 @@
 (* The whole body of compute_leaf_layout, regenerated from src/compute/leaf.rs on every run (Gen/LeafGen.v), is the hand
    model Model/Leaf.v:compute_leaf_layout -- same output and same log of measure calls, for any `Num`. *)
 From Coq Require Import List Bool.
-From TV Require Import Model.Common Model.Leaf Gen.LeafGen.
+From TV Require Import Model.Common Model.Leaf Model.Root Model.LeafGenRoot Gen.LeafGen.
 Import ListNotations.
 
 Section LeafGenProofs.
@@ -22,5 +22,17 @@ Section LeafGenProofs.
     (match goal with |- context [if ?p then _ else _] => generalize p; intros [|] end; [ | reflexivity ]);
     (match goal with |- match ?x with _ => _ end = _ => destruct x; [ | reflexivity ] end);
     (match goal with |- match ?x with _ => _ end = _ => destruct x; reflexivity end).
+  Qed.
+
+  Lemma gen_childless_is_model (inputs : LayoutInput T) (style : Style T) (measure : MeasureFn T) :
+    gen_childless_child_layout inputs style measure = childless_child_layout inputs style measure.
+  Proof.
+    unfold gen_childless_child_layout, childless_child_layout. rewrite gen_leaf_is_model. reflexivity.
+  Qed.
+
+  Lemma gen_root_leaf_is_model (style : Style T) (measure : MeasureFn T) (av : Size (AvailableSpace T)) :
+    gen_root_leaf style measure av = root_leaf style measure av.
+  Proof.
+    unfold gen_root_leaf, root_leaf. rewrite gen_childless_is_model. reflexivity.
   Qed.
 End LeafGenProofs.
